@@ -299,7 +299,7 @@ REWRITES = {"rename": rw_rename, "refstyle": rw_refstyle, "precedes": rw_precede
 def run(ctx):
     nob, ndis, failing, files = common.obligations(ctx, PROPS)
     base = []
-    for fam, nq, nt in (("deps", 80, 800), ("coredeps", 60, 600), ("hours", 50, 500), ("core", 30, 300), ("alap", 30, 300), ("dupprec", 80, 600), ("grouphours", 40, 300)):
+    for fam, nq, nt in (("deps", 80, 800), ("coredeps", 60, 600), ("hours", 50, 500), ("core", 30, 300), ("alap", 30, 300), ("dupprec", 80, 600), ("grouphours", 40, 300), ("alapmany", 40, 300)):
         base += gens.family(ctx, fam, ctx.n(nq, nt))
     for ap in base[::2]:
         decorate(ctx.rng, ap)
@@ -309,6 +309,8 @@ def run(ctx):
         names = ctx.rng.sample(sorted(REWRITES), 3)
         if ap.get("_always_precedes") and "precedes" not in names:
             names[0] = "precedes"
+        if ap.get("_family") == "alapmany" and "rename" not in names:
+            names[0] = "rename"          # ids that are prefixes of one another (t1 / t10) are renamed apart
         for name in names:
             if name == "shift" and not any(n.get("shift") or n.get("hours") is not None for _, n in projects.walk(ap["resources"])):
                 continue
